@@ -1,4 +1,146 @@
 import VpnCloud.Model.NodeInfo
 import VpnCloud.Spec.C16
+import VpnCloud.Proofs.Lemmas.CodecLemmas
+/-
+  C16 — wire codecs: round trips of the Range, rotation message and node information codecs,
+  unknown parts are skipped, the decoder's fuel never runs out.
+  All statements are exactly those of the task; no hypothesis had to be added.
+-/
 namespace VpnCloud.Proofs.C16
+open VpnCloud VpnCloud.Codec VpnCloud.Spec.C16
+open VpnCloud.Proofs.CodecLemmas
+
+/-- Range codec round trip, with arbitrary bytes behind the encoding -/
+theorem range_roundtrip (r : Range) (h : rangeWF r = true) (rest : Bytes) :
+    readRange (writeRange r ++ rest) = some (r, rest) := by
+  simp [rangeWF] at h
+  obtain ⟨⟨hlen, _⟩, hp⟩ := h
+  have hm : r.base.length % 256 = r.base.length := by omega
+  have hp' : r.prefixLen % 256 = r.prefixLen := by omega
+  have t := take?_append r.base.length r.base (r.prefixLen :: rest) rfl
+  have hg : ¬ r.base.length > 16 := by omega
+  have e : writeRange r ++ rest = r.base.length :: (r.base ++ (r.prefixLen :: rest)) := by
+    simp [writeRange, writeAddress, hm, hp']
+  rw [e]
+  simp only [readRange, readAddress, readU8, Option.bind_eq_bind, Option.bind_some, hg, ↓reduceIte, t,
+    Option.pure_def]
+
+/-- rotation message round trip (ids are u64, key lengths fit a byte, an absent confirmation is the zero length byte);
+    bytes behind the message (the stale tail of the receive buffer) are ignored -/
+theorem rotmsg_roundtrip (m : RotMsg) (rest : Bytes) (hid : m.id < 2 ^ 64)
+    (hp : m.propose.length < 256 ∧ Bytes.WF m.propose)
+    (hc : ∀ c, m.confirm = some c → 0 < c.length ∧ c.length < 256 ∧ Bytes.WF c) :
+    readRotMsg (writeRotMsg m ++ rest) = some m := by
+  obtain ⟨id, propose, confirm⟩ := m
+  simp only at hid hp hc
+  have hv : Bytes.beVal (Bytes.ofBE 8 id) = id := by
+    rw [beVal_ofBE]; exact Nat.mod_eq_of_lt hid
+  have hpl : propose.length % 256 = propose.length := Nat.mod_eq_of_lt hp.1
+  cases confirm with
+  | none =>
+    have e : writeRotMsg ⟨id, propose, none⟩ ++ rest
+        = Bytes.ofBE 8 id ++ (propose.length :: (propose ++ (0 :: rest))) := by
+      simp [writeRotMsg, hpl]
+    have t1 := take?_append 8 (Bytes.ofBE 8 id) (propose.length :: (propose ++ (0 :: rest))) (ofBE_length 8 id)
+    have t2 := take?_append propose.length propose (0 :: rest) rfl
+    rw [e]
+    simp only [readRotMsg, t1, readU8, t2, Option.bind_eq_bind, Option.bind_some, Nat.lt_irrefl, ↓reduceIte,
+      Option.pure_def, hv]
+  | some c =>
+    obtain ⟨c0, c1, _⟩ := hc c rfl
+    have hcl : c.length % 256 = c.length := Nat.mod_eq_of_lt c1
+    have e : writeRotMsg ⟨id, propose, some c⟩ ++ rest
+        = Bytes.ofBE 8 id ++ (propose.length :: (propose ++ (c.length :: (c ++ rest)))) := by
+      simp [writeRotMsg, hpl, hcl]
+    have t1 := take?_append 8 (Bytes.ofBE 8 id) (propose.length :: (propose ++ (c.length :: (c ++ rest))))
+      (ofBE_length 8 id)
+    have t2 := take?_append propose.length propose (c.length :: (c ++ rest)) rfl
+    have t3 := take?_append c.length c rest rfl
+    have c0' : c.length > 0 := c0
+    rw [e]
+    simp only [readRotMsg, t1, readU8, t2, t3, Option.bind_eq_bind, Option.bind_some, c0', ↓reduceIte,
+      Option.pure_def, hv]
+
+/-- the list of parts really is the encoding -/
+theorem partsOf_flatten (n : NodeInfo) : (partsOf n).flatten = encodeNodeInfo n := by
+  cases h : n.peerTimeout <;> simp [partsOf, encodeNodeInfo, h]
+
+/-- **nodeinfo_roundtrip**: decode (encode x) = normalise x, also with stale bytes behind the message -/
+theorem nodeinfo_roundtrip (n : NodeInfo) (h : WF n = true) (tail : Bytes) :
+    decodeNodeInfo (encodeNodeInfo n ++ tail) = some (normalise n) := by
+  rw [← partsOf_flatten, partsOf_eq]
+  exact decode_of_chain n (bodyParts n) (chain_body n h) tail
+
+/-- **unknown_parts_skipped**: a part with an unknown tag inserted at any part boundary (before the END marker) leaves the result unchanged -/
+theorem unknown_parts_skipped (n : NodeInfo) (h : WF n = true) (k tag : Nat) (body tail : Bytes)
+    (hk : k < (partsOf n).length) (htag : 6 ≤ tag ∧ tag < 256) (hb : body.length < 65536 ∧ Bytes.WF body) :
+    decodeNodeInfo (insertPart (partsOf n) k (tag :: (Bytes.ofU16 body.length ++ body)) ++ tail) = some (normalise n) := by
+  have hk' : k ≤ (bodyParts n).length := by
+    have := bodyParts_length n; omega
+  have hc := (chain_body n h).insert (tag :: (Bytes.ofU16 body.length ++ body))
+    (fun x => step_unknown tag body htag.1 hb.1 x) k hk'
+  have e : insertPart (partsOf n) k (tag :: (Bytes.ofU16 body.length ++ body))
+      = (((bodyParts n).take k ++ [tag :: (Bytes.ofU16 body.length ++ body)] ++ (bodyParts n).drop k)
+          ++ [[Generated.NI_PART_END]]).flatten := by
+    unfold insertPart
+    rw [partsOf_eq, List.take_append_of_le_length hk', List.drop_append_of_le_length hk', List.append_assoc,
+      List.append_assoc, List.append_assoc]
+  rw [e]
+  exact decode_of_chain n _ hc tail
+
+/-- **decode_total** (fuel never runs out): the decoder's answer does not depend on the fuel once it is at least the input length + 1,
+    so `none` always means "malformed input", never "ran out of fuel"; together with structural recursion on the fuel this is termination
+    on every byte string. -/
+theorem decodeParts_fuel (r : Bytes) (acc : Partial) (f1 f2 : Nat) (h1 : r.length + 1 ≤ f1) (h2 : r.length + 1 ≤ f2) :
+    decodeParts f1 r acc = decodeParts f2 r acc :=
+  decodeParts_fuel' f1 f2 r acc h1 h2
+
+/-- every length a decoder is asked to allocate comes from a 16-bit (resp. 8-bit) length field -/
+theorem readU16_lt (r : Bytes) (h : Bytes.WF r) (v : Nat) (rest : Bytes) (hr : readU16 r = some (v, rest)) : v < 65536 := by
+  match r, h, hr with
+  | a :: b :: r2, h, hr =>
+    simp only [readU16, Option.some.injEq, Prod.mk.injEq] at hr
+    simp only [Bytes.wf_cons] at h
+    omega
+  | [], _, hr => simp [readU16] at hr
+  | [_], _, hr => simp [readU16] at hr
+
+/-! ### non-vacuity: a concrete message with 2 peers (one with 9 addresses: 8 IPv4 + 1 IPv6), 3 claims -/
+
+private def ip4 (x : Nat) : SockAddr := .v4 [10, 0, 0, x] (3210 + x)
+private def ip6 (x : Nat) : SockAddr := .v6 [0x20, 1, 0xd, 0xb8, 0, 0, 0, 0, 0, 0, 0, 0, 0, 0, 0, x] 65535
+
+private def sampleMsg : NodeInfo :=
+  { nodeId := [1, 2, 3, 4, 5, 6, 7, 8, 9, 10, 11, 12, 13, 14, 15, 255],
+    peers :=
+      [{ nodeId := some [16, 15, 14, 13, 12, 11, 10, 9, 8, 7, 6, 5, 4, 3, 2, 1],
+         addrs := [ip4 1, ip4 2, ip4 3, ip6 1, ip4 4, ip4 5, ip4 6, ip4 7, ip4 8] },
+       { nodeId := none, addrs := [ip4 9, ip6 2] }],
+    claims := [⟨[10, 1, 0, 0], 16⟩, ⟨[0x20, 1, 0xd, 0xb8, 0, 0, 0, 0, 0, 0, 0, 0, 0, 0, 0, 0], 64⟩, ⟨[2, 0, 0, 0, 0, 1], 48⟩],
+    peerTimeout := some 300,
+    addrs := [ip4 100, ip6 100] }
+
+example : WF sampleMsg = true := by decide +kernel
+example : (partsOf sampleMsg).length = 6 := by decide +kernel
+/-- the round trip really normalises: the 8th IPv4 address is dropped and the IPv6 address moves to the front -/
+example : normalise sampleMsg ≠ sampleMsg := by decide +kernel
+example : ((normalise sampleMsg).peers.map (fun p => p.addrs.length)) = [8, 2] := by decide +kernel
+example : decodeNodeInfo (encodeNodeInfo sampleMsg ++ [9, 9, 9]) = some (normalise sampleMsg) := by decide +kernel
+example : decodeNodeInfo (encodeNodeInfo { sampleMsg with peerTimeout := none }) =
+    some (normalise { sampleMsg with peerTimeout := none }) := by decide +kernel
+/-- an unknown part (tag 77, three body bytes) at each of the six part boundaries -/
+example : ∀ k, k < 6 → decodeNodeInfo (insertPart (partsOf sampleMsg) k (77 :: (Bytes.ofU16 3 ++ [1, 2, 3])) ++ [5])
+    = some (normalise sampleMsg) := by decide +kernel
+/-- the encoding is not just accepted blindly: a truncated message is rejected -/
+example : decodeNodeInfo ((encodeNodeInfo sampleMsg).take 40) = none := by decide +kernel
+example : ∀ r ∈ sampleMsg.claims, readRange (writeRange r ++ [7]) = some (r, [7]) := by decide +kernel
+example : readRotMsg (writeRotMsg ⟨2 ^ 64 - 1, [1, 2, 3], some [4, 5]⟩ ++ [6]) = some ⟨2 ^ 64 - 1, [1, 2, 3], some [4, 5]⟩ := by
+  decide +kernel
+example : readRotMsg (writeRotMsg ⟨77, [1, 2, 3], none⟩ ++ [6]) = some ⟨77, [1, 2, 3], none⟩ := by decide +kernel
+/-- the hypotheses of `rotmsg_roundtrip` are needed: an empty confirmation is read back as "absent" -/
+example : readRotMsg (writeRotMsg ⟨1, [1], some []⟩) ≠ some ⟨1, [1], some []⟩ := by decide +kernel
+/-- the hypothesis `WF` of `nodeinfo_roundtrip` is needed: a short node id is not decodable -/
+example : decodeNodeInfo (encodeNodeInfo { sampleMsg with nodeId := [1, 2, 3] }) ≠
+    some (normalise { sampleMsg with nodeId := [1, 2, 3] }) := by decide +kernel
+
 end VpnCloud.Proofs.C16
